@@ -7,7 +7,7 @@ Copies patch.diff, demo.py, meta.json to /verif/seeded/<Cxx>/ and records what w
 import json, os, shutil, subprocess, sys, tempfile, time
 from pathlib import Path
 pid = sys.argv[1]
-checks = [a for a in sys.argv[2:] if not a.startswith("--")] or [pid]
+checks = [a for a in sys.argv[2:] if not a.startswith("--")] or [pid.split("-")[0]]
 src = Path(f"/tmp/seed/out/{pid}")
 wt = tempfile.mkdtemp(prefix="vt-seed-"); os.rmdir(wt)
 subprocess.run(["git", "-C", "/repo", "worktree", "add", "-q", "--detach", wt, "HEAD"], check=True)
